@@ -300,6 +300,28 @@ def run(prog, rep, tier):
     ap = apps[0]
     val = ap.args[0]
     env_elem = ("elem", DATA)
+    for b_ in inner.get("breaks") or []:
+        # a fold loop that can be left early: every fold after the exit gets no slice for this environment
+        p_ = (b_.get("$path", ()) or ()) if isinstance(b_, dict) else ()
+        vals_b = truth_by_distance(npred(*p_[-1]), idx, L)[0] if p_ else None
+        fixed = None
+        if p_ and vals_b is None:
+            # a condition on the fold index alone: true at a fixed fold k, which is not the last one as soon as there are more than k+1 folds
+            pr_ = npred(*p_[-1])
+            if pr_[0] in (">0", ">=0", "==0", "!=0"):
+                d_ = dict(pr_[1])
+                a_, c_ = d_.pop((idx,), Fraction(0)), d_.pop((), Fraction(0))
+                if not d_ and a_ != 0:
+                    fixed = next((k_ for k_ in range(0, 8) if {">0": a_ * k_ + c_ > 0, ">=0": a_ * k_ + c_ >= 0, "==0": a_ * k_ + c_ == 0, "!=0": a_ * k_ + c_ != 0}[pr_[0]]), None)
+        if fixed is not None:
+            rep.bad("FLOW.break", fwhere(f, inner["node"]), "the fold loop is left at fold %d (`%s`) whatever the number of folds: with more than %d folds the later ones receive no slice" % (
+                fixed, pred_fmt(npred(*p_[-1])), fixed + 1))
+        elif vals_b is not None and any(vals_b[t] for t in range(1, 8)):
+            rep.bad("FLOW.break", fwhere(f, inner["node"]), "the fold loop is left before the last fold (`%s` holds for an earlier fold): the folds after it receive no slice" % pred_fmt(npred(*p_[-1])))
+        else:
+            rep.unk("FLOW.break", fwhere(f, inner["node"]), "the fold loop can be left by break%s: whether every fold still receives exactly one slice per environment is not read" %
+                    (" under `%s`" % pred_fmt(npred(*p_[-1])) if p_ else ""))
+        return
     # definite assignment
     unb = sorted({x[1] for fct in S.facts if fct.qname == Q for t in ([getattr(fct, "value", None), getattr(fct, "term", None)] + list(getattr(fct, "args", []) or []))
                   if t is not None for x in walk(t) if isinstance(x, tuple) and x[0] == "unbound"} |
@@ -308,6 +330,33 @@ def run(prog, rep, tier):
               "variable(s) %s may be read before assignment on some path" % unb)
     def is_slice(t):
         return t[0] == "sub" and t[2][0] == "slice"
+
+    def same_rows(t):
+        # the environment's sample or a length-preserving copy / conversion / shuffle of it
+        while True:
+            if t == env_elem:
+                return True
+            if t[0] == "method" and t[2] in ("copy",) and not t[3]:
+                t = t[1]
+            elif t[0] == "ext" and t[1] in ("numpy.array", "numpy.asarray", "numpy.copy", "copy.deepcopy", "numpy.asanyarray", "copy.copy") and len(t[2]) == 1:
+                t = t[2][0]
+            elif t[0] == "shuffled":
+                t = t[1]
+            else:
+                return False
+
+    def is_rows(t):
+        if t[0] == "ext" and t[1] == "len" and len(t[2]) == 1:
+            return same_rows(t[2][0])
+        if t[0] == "sub" and t[1][0] == "attr" and t[1][2] == "shape" and is_const(t[2], 0):
+            return same_rows(t[1][1])
+        return False
+
+    def open_end(t):
+        # x[a:len(x)] is x[a:] (the length of this environment's sample, of a copy or of a shuffle of it)
+        if is_slice(t) and t[2][2] != NONE_ and is_rows(t[2][2]) and same_rows(t[1]):
+            return ("sub", t[1], ("slice", t[2][1], NONE_, t[2][3]))
+        return t
     post = None
     if peeled is not None:
         # the remainder is appended after the loop, once per environment
@@ -317,7 +366,7 @@ def run(prog, rep, tier):
                     "receive the remainder exactly once per environment" % (fmt(it)[:60], len(posts)))
             return
         post = posts[0]
-        X, Y = val, post.args[0]
+        X, Y = val, open_end(post.args[0])
         if val[0] == "phi" or not (is_slice(X) and is_slice(Y)):
             rep.unk("LAST.branch", fwhere(f, ap.node), "loop over the first n-1 folds whose body is not a plain slice: not read")
             return
@@ -336,7 +385,7 @@ def run(prog, rep, tier):
         rep.bad("LAST.branch", fwhere(f, ap.node), "no separate remainder slice for the last fold: %s" % fmt(val)[:100])
         return
     else:
-        C, X, Y = val[1], val[2], val[3]
+        C, X, Y = val[1], open_end(val[2]), open_end(val[3])
         if not (is_slice(X) and is_slice(Y)):
             rep.bad("CONTIG.slices", fwhere(f, ap.node), "fold contents are not slices of the shuffled sample")
             return
@@ -387,26 +436,6 @@ def run(prog, rep, tier):
             adv in (("binop", "+", mu, size), ("binop", "+", size, mu)) and bnd[2][3] == NONE_ and rem[2][3] == NONE_
         why = "bounded=%s remainder=%s cursor'=%s init=%s" % (fmt(bnd)[:70], fmt(rem)[:50], fmt(nx)[:80], fmt(inner["init"][nm]))
         if okc:
-            def same_rows(t):
-                # the environment's sample or a length-preserving copy / conversion / shuffle of it
-                while True:
-                    if t == env_elem:
-                        return True
-                    if t[0] == "method" and t[2] in ("copy",) and not t[3]:
-                        t = t[1]
-                    elif t[0] == "ext" and t[1] in ("numpy.array", "numpy.asarray", "numpy.copy", "copy.deepcopy", "numpy.asanyarray", "copy.copy") and len(t[2]) == 1:
-                        t = t[2][0]
-                    elif t[0] == "shuffled":
-                        t = t[1]
-                    else:
-                        return False
-
-            def is_rows(t):
-                if t[0] == "ext" and t[1] == "len" and len(t[2]) == 1:
-                    return same_rows(t[2][0])
-                if t[0] == "sub" and t[1][0] == "attr" and t[1][2] == "shape" and is_const(t[2], 0):
-                    return same_rows(t[1][1])
-                return False
             prod = size[2][0] if size[0] == "ext" and size[1] == "round" and len(size[2]) == 1 and not size[3] else None
             size_ok = prod is not None and prod[0] == "binop" and prod[1] == "*" and ((prod[2] == ratio and is_rows(prod[3])) or (prod[3] == ratio and is_rows(prod[2])))
             rep.check("SIZE.round", size_ok, fwhere(f, ap.node), "fold size = round(len(sample) * ratio_i)", "fold size is %s" % fmt(size)[:80])
